@@ -88,6 +88,16 @@ func runCtxCase(a args, idx int, r *h.Rand) {
 			t.Commands = append(t.Commands, cmd)
 		}
 		tk.Failed = fail
+		if !fail && r.Chance(30) {
+			// a task that would tolerate failing commands: a context that could not be brought up is no such failure
+			t.AllowFailure = true
+		}
+		if !fail && r.Chance(20) {
+			// a task timeout that each command respects while the whole task takes longer: hooks are not commands of the task
+			to := 250 * time.Millisecond
+			t.Timeout = &to
+			t.Commands = append(t.Commands, "sleep 0.15", "sleep 0.15")
+		}
 		if r.Chance(30) {
 			t.Before = []string{tok(fmt.Sprintf("%s|T|%s:tb", cx, name))}
 		}
